@@ -272,6 +272,7 @@ def parse (buf : Bytes) : Option (L3 × L4) :=
 
 structure ICMPInfo where
   wrappedId : Nat
+  proto : Nat           -- `WrappedProtocol`: protocol field of the quoted IPv4 header / next-header field of the quoted IPv6 header
   qsrc : Bytes
   qdst : Bytes
   payload : Bytes
@@ -280,7 +281,7 @@ deriving Repr, DecidableEq
 /-- `GetICMPInfo` for an ICMPv4 layer: decode the quoted IPv4 header (direct `DecodeFromBytes`, no
     panic recovery — the IPv4 decoder has no panicking path) -/
 def icmpInfo4 (i : ICMP4) : Option ICMPInfo :=
-  (ip4 i.payload).map fun q => { wrappedId := q.id, qsrc := q.src, qdst := q.dst, payload := q.payload }
+  (ip4 i.payload).map fun q => { wrappedId := q.id, proto := q.proto, qsrc := q.src, qdst := q.dst, payload := q.payload }
 
 /-- `GetICMPInfo` for an ICMPv6 layer: `extractEmbeddedIPv6` (skip 4 bytes, version nibble 6) then
     decode the quoted IPv6 header (direct `DecodeFromBytes`; the decoder has no panicking path:
@@ -291,6 +292,6 @@ def icmpInfo6 (i : ICMP6) : Option ICMPInfo :=
   | some b =>
     if b / 16 ≠ 6 then none else
     (ip6 (i.payload.drop 4)).map fun q =>
-      { wrappedId := if q.nextHeader = 17 then q.len else 0, qsrc := q.src, qdst := q.dst, payload := q.payload }
+      { wrappedId := if q.nextHeader = 17 then q.len else 0, proto := q.nextHeader, qsrc := q.src, qdst := q.dst, payload := q.payload }
 
 end TRV.Wire
